@@ -297,7 +297,9 @@ class H5Group:
                     igrp.attrs.modify("entity_id", np.bytes_(id_))
             id_ = util.create_id()
             grp.attrs.modify("entity_id", np.bytes_(id_))
-            grp.visititems(change_id)
+            if isinstance(grp, h5py.Group):
+                # a copied property is a dataset and has no members
+                grp.visititems(change_id)
         return grp
 
     @property
